@@ -146,3 +146,222 @@ Proof.
         rewrite c12_signed_tail.
         cbn [c12_dropwhile c12_takewhile]. unfold c12_nonspace at 1 3. rewrite Hc. reflexivity.
 Qed.
+
+(* ------------------------------------------------------------------ fixed-size ranges *)
+
+Lemma c12_digits_sound : forall s acc n m k rest,
+  c12_digits s acc n = (m, k, rest) ->
+  exists ds vals, s = ds ++ rest /\ c12_all_some c12_digit ds = Some vals /\
+                  m = fold_left c12_step vals acc /\ k = n + length ds /\ c12_nondigit_start rest.
+Proof.
+  induction s as [|c r IH]; intros acc n m k rest H.
+  - inversion H; subst. exists [], []. cbn. repeat split; try lia.
+  - rewrite c12_digits_cons in H. destruct (c12_digit c) as [d|] eqn:Ed.
+    + apply IH in H as (ds & vals & -> & Hv & -> & -> & Hn).
+      exists (c :: ds), (d :: vals). cbn. rewrite Ed, Hv. repeat split; try lia. exact Hn.
+    + inversion H; subst. exists [], []. cbn. repeat split; try lia. exact Ed.
+Qed.
+
+Lemma c12_digits_complete : forall ds vals rest acc n,
+  c12_all_some c12_digit ds = Some vals -> c12_nondigit_start rest ->
+  c12_digits (ds ++ rest) acc n = (fold_left c12_step vals acc, n + length ds, rest).
+Proof.
+  induction ds as [|c ds IH]; intros vals rest acc n Hv Hn.
+  - cbn in Hv. inversion Hv; subst. cbn [app fold_left length].
+    replace (n + 0) with n by lia.
+    destruct rest as [|x rest]; [reflexivity|]. rewrite c12_digits_cons. cbn in Hn. rewrite Hn. reflexivity.
+  - cbn in Hv. destruct (c12_digit c) as [d|] eqn:Ed; [|discriminate].
+    destruct (c12_all_some c12_digit ds) as [vs|] eqn:Evs; [|discriminate]. inversion Hv; subst.
+    cbn [app]. rewrite c12_digits_cons, Ed. rewrite (IH vs rest _ _ eq_refl Hn).
+    cbn [fold_left length]. unfold c12_step at 2. f_equal. f_equal. lia.
+Qed.
+
+Lemma c12_split_blanks : forall s, exists b, s = b ++ c12_dropwhile c12_is_space s /\ forallb c12_is_space b = true.
+Proof.
+  induction s as [|c s (b & Hs & Hb)].
+  - exists []. split; reflexivity.
+  - cbn. destruct (c12_is_space c) eqn:E.
+    + exists (c :: b). cbn. rewrite E, Hb. split; [f_equal; exact Hs|reflexivity].
+    + exists []. split; reflexivity.
+Qed.
+
+Lemma c12_dropwhile_app : forall b s, forallb c12_is_space b = true ->
+  c12_dropwhile c12_is_space (b ++ s) = c12_dropwhile c12_is_space s.
+Proof.
+  induction b as [|c b IH]; intros s H; [reflexivity|].
+  cbn in *. apply andb_true_iff in H as [Hc Hb]. rewrite Hc. apply IH. exact Hb.
+Qed.
+
+Lemma c12_tail_sound : forall lo hi neg s2 v rest e,
+  c12_extract_tail true lo hi neg s2 = (Some v, rest, e) ->
+  exists ds, s2 = ds ++ rest /\ c12_spec_int_digits lo hi neg ds = Some v /\ ds <> [] /\
+             c12_nondigit_start rest /\ e = c12_is_nil rest.
+Proof.
+  intros lo hi neg s2 v rest e H. unfold c12_extract_tail in H.
+  destruct (c12_digits s2 0 O) as [[m k] rest'] eqn:Ed.
+  apply c12_digits_sound in Ed as (ds & vals & -> & Hv & -> & -> & Hn).
+  destruct ds as [|c ds]; [cbn in H; discriminate|].
+  cbn [length Nat.add] in H.
+  destruct ((lo <=? (if neg then - fold_left c12_step vals 0 else fold_left c12_step vals 0)) &&
+            ((if neg then - fold_left c12_step vals 0 else fold_left c12_step vals 0) <=? hi))%Z eqn:Er;
+    [|discriminate].
+  inversion H; subst. exists (c :: ds). repeat split; try assumption; try discriminate.
+  unfold c12_spec_int_digits. rewrite Hv.
+  change (fun a d : Z => (10 * a + d)%Z) with c12_step. rewrite Er. reflexivity.
+Qed.
+
+Lemma c12_tail_complete : forall lo hi neg ds rest v,
+  c12_spec_int_digits lo hi neg ds = Some v -> c12_nondigit_start rest ->
+  c12_extract_tail true lo hi neg (ds ++ rest) = (Some v, rest, c12_is_nil rest).
+Proof.
+  intros lo hi neg ds rest v H Hn. unfold c12_spec_int_digits in H.
+  destruct ds as [|c ds]; [discriminate|].
+  destruct (c12_all_some c12_digit (c :: ds)) as [vals|] eqn:Ev; [|discriminate].
+  change (fun a d : Z => (10 * a + d)%Z) with c12_step in H.
+  unfold c12_extract_tail. rewrite (c12_digits_complete _ _ _ _ _ Ev Hn).
+  cbn [length Nat.add].
+  destruct ((lo <=? _) && (_ <=? hi))%Z; [|discriminate]. inversion H; subst. reflexivity.
+Qed.
+
+Lemma c12_sign_nonspace_minus : c12_is_space "-" = false. Proof. reflexivity. Qed.
+Lemma c12_sign_nonspace_plus : c12_is_space "+" = false. Proof. reflexivity. Qed.
+
+Lemma c12_digits_head : forall lo hi neg c ds v,
+  c12_spec_int_digits lo hi neg (c :: ds) = Some v -> exists d, c12_digit c = Some d.
+Proof.
+  intros lo hi neg c ds v H. unfold c12_spec_int_digits in H. cbn in H.
+  destruct (c12_digit c) as [d|]; [eauto|discriminate].
+Qed.
+
+Lemma c12_extract_sound : forall lo hi s v rest e,
+  c12_extract_int true lo hi s = (Some v, rest, e) ->
+  exists b t, s = b ++ t ++ rest /\ forallb c12_is_space b = true /\
+              c12_spec_int_token lo hi t = Some v /\ c12_nondigit_start rest /\ e = c12_is_nil rest.
+Proof.
+  intros lo hi s v rest e H. unfold c12_extract_int, c12_skip_space in H.
+  destruct (c12_split_blanks s) as (b & Hs & Hb).
+  destruct (c12_dropwhile c12_is_space s) as [|c r] eqn:Es1; [discriminate|].
+  destruct (Ascii.eqb_spec c "-") as [->|Hm].
+  { apply c12_tail_sound in H as (ds & -> & Ht & _ & Hn & He).
+    exists b, ("-" :: ds). repeat split; try assumption. }
+  destruct (Ascii.eqb_spec c "+") as [->|Hp].
+  { apply c12_tail_sound in H as (ds & -> & Ht & _ & Hn & He).
+    exists b, ("+" :: ds). repeat split; try assumption. }
+  apply c12_tail_sound in H as (ds & Hds & Ht & Hne & Hn & He).
+  destruct ds as [|c' ds]; [congruence|]. cbn in Hds. inversion Hds; subst c' r.
+  exists b, (c :: ds). repeat split; try assumption.
+  rewrite c12_token_other by assumption. exact Ht.
+Qed.
+
+Lemma c12_extract_complete : forall lo hi b t rest v,
+  forallb c12_is_space b = true -> c12_spec_int_token lo hi t = Some v -> c12_nondigit_start rest ->
+  c12_extract_int true lo hi (b ++ t ++ rest) = (Some v, rest, c12_is_nil rest).
+Proof.
+  intros lo hi b t rest v Hb Ht Hn. unfold c12_extract_int, c12_skip_space.
+  rewrite (c12_dropwhile_app _ _ Hb).
+  destruct t as [|c t]; [discriminate|].
+  destruct (Ascii.eqb_spec c "-") as [->|Hm].
+  { cbn [app c12_dropwhile]. rewrite c12_sign_nonspace_minus. cbn [Ascii.eqb Bool.eqb andb].
+    apply c12_tail_complete; assumption. }
+  destruct (Ascii.eqb_spec c "+") as [->|Hp].
+  { cbn [app c12_dropwhile]. rewrite c12_sign_nonspace_plus. cbn [Ascii.eqb Bool.eqb andb].
+    apply c12_tail_complete; assumption. }
+  rewrite c12_token_other in Ht by assumption.
+  destruct (c12_digits_head _ _ _ _ _ _ Ht) as [d Hd].
+  cbn [app c12_dropwhile]. rewrite (c12_digit_nonspace _ _ Hd).
+  destruct (Ascii.eqb_spec c "-"); [contradiction|]. destruct (Ascii.eqb_spec c "+"); [contradiction|].
+  change (c :: t ++ rest) with ((c :: t) ++ rest). apply c12_tail_complete; assumption.
+Qed.
+
+Lemma c12_range_items_sound : forall lo hi n s vs rest,
+  c12_range_items (c12_extract_int true lo hi) n s = Some (vs, rest) -> c12_items_then lo hi n s vs rest.
+Proof.
+  induction n as [|n IH]; intros s vs rest H; cbn in H.
+  - inversion H; subst. constructor.
+  - destruct (c12_extract_int true lo hi s) as [[[v|] r] e] eqn:Ex; [|discriminate].
+    destruct (c12_range_items (c12_extract_int true lo hi) n r) as [[vs' r']|] eqn:Er; [|discriminate].
+    inversion H; subst.
+    apply c12_extract_sound in Ex as (b & t & -> & Hb & Ht & Hn & _).
+    constructor; auto.
+Qed.
+
+Lemma c12_range_items_complete : forall lo hi n s vs rest,
+  c12_items_then lo hi n s vs rest -> c12_range_items (c12_extract_int true lo hi) n s = Some (vs, rest).
+Proof.
+  intros lo hi n s vs rest H. induction H as [s|n b t v r vs rest Hb Ht Hn H IH]; [reflexivity|].
+  cbn. rewrite (c12_extract_complete _ _ _ _ _ _ Hb Ht Hn). rewrite IH. reflexivity.
+Qed.
+
+(* with the repaired probe (fixes/C12-1.patch) a fixed-size range converts exactly the texts that
+   consist of n integer items and blanks, to exactly their values *)
+Lemma c12_range_exact_fixed : forall lo hi n s vs,
+  c12_parse_range true (c12_extract_int true lo hi) n s = Some vs <-> c12_spec_range_rel lo hi n s vs.
+Proof.
+  intros lo hi n s vs. unfold c12_parse_range, c12_spec_range_rel. split.
+  - destruct (c12_range_items _ n s) as [[vs' rest]|] eqn:E; [|discriminate].
+    destruct (c12_is_nil (c12_skip_space rest)) eqn:En; [|discriminate].
+    intros H; inversion H; subst. exists rest. split.
+    + apply c12_range_items_sound. exact E.
+    + unfold c12_skip_space in En. rewrite c12_is_nil_dropwhile in En. exact En.
+  - intros (rest & H & Hb). rewrite (c12_range_items_complete _ _ _ _ _ _ H).
+    unfold c12_skip_space. rewrite c12_is_nil_dropwhile, Hb. reflexivity.
+Qed.
+
+(* the probe as it stands (`Value dummy`) is NOT exact: F-C12-1 *)
+Definition c12_witness_range : c12_str := ["1"; " "; "2"; " "; "3"; " "; "-"].
+Lemma c12_range_exact_asis_refuted :
+  exists s vs, c12_parse_range false (c12_ity_extract C12Int) 3 s = Some vs /\
+               ~ c12_spec_range_rel (- 2 ^ 31) (2 ^ 31 - 1) 3 s vs.
+Proof.
+  exists c12_witness_range, [1; 2; 3]%Z. split; [vm_compute; reflexivity|].
+  intro H. apply c12_range_exact_fixed in H. vm_compute in H. discriminate.
+Qed.
+
+(* soundness half survives: what the present code accepts always starts with n well-formed items *)
+Lemma c12_range_asis_items : forall lo hi n s vs,
+  c12_parse_range false (c12_extract_int true lo hi) n s = Some vs ->
+  exists rest, c12_items_then lo hi n s vs rest.
+Proof.
+  intros lo hi n s vs. unfold c12_parse_range.
+  destruct (c12_range_items _ n s) as [[vs' rest]|] eqn:E; [|discriminate].
+  intros H. exists rest. apply c12_range_items_sound.
+  destruct (c12_extract_int true lo hi rest) as [[[v|] r] [|]]; try discriminate; inversion H; subst; exact E.
+Qed.
+
+(* ------------------------------------------------------------------ bool, vector, bitset *)
+
+Lemma c12_all_some_ext : forall A B (f g : A -> option B) l,
+  (forall x, f x = g x) -> c12_all_some f l = c12_all_some g l.
+Proof. induction l as [|x l IH]; intros H; cbn; [reflexivity|]. rewrite H, IH by exact H. reflexivity. Qed.
+
+Lemma c12_bool_exact : forall s, c12_parse_bool s = c12_spec_bool s.
+Proof.
+  intros s. unfold c12_parse_bool, c12_spec_bool.
+  change (c12_ity_extract C12Int) with (c12_extract_int true (- 2 ^ 31) (2 ^ 31 - 1)).
+  rewrite c12_int_exact. reflexivity.
+Qed.
+
+Lemma c12_vector_exact : forall lo hi s,
+  c12_parse_vector (c12_extract_int true lo hi) s = c12_all_some (c12_spec_int lo hi) (c12_split s).
+Proof. intros. unfold c12_parse_vector. apply c12_all_some_ext. intros x. apply c12_int_exact. Qed.
+
+Lemma c12_bitset_exact : forall n s,
+  c12_parse_bitset n s =
+  (if Nat.eqb (length (c12_split s)) n then c12_all_some c12_spec_bool (c12_split s) else None).
+Proof.
+  intros. unfold c12_parse_bitset. destruct (Nat.eqb _ n); [|reflexivity].
+  apply c12_all_some_ext. exact c12_bool_exact.
+Qed.
+
+(* ParameterTree::split = the tokens between " \t\n\r" *)
+Lemma c12_split_aux_tokens : forall s cur, c12_split_aux s cur = c12_spec_tokens_by c12_is_ws s cur.
+Proof. induction s as [|c r IH]; intros cur; cbn; [reflexivity|]. rewrite !IH. reflexivity. Qed.
+Lemma c12_split_tokens : forall s, c12_split s = c12_spec_tokens_ws s.
+Proof. intros. apply c12_split_aux_tokens. Qed.
+
+(* no partially converted value: whatever Parser<int> returns, re-reading its decimal digits... is the
+   token itself: stated as "accepted texts are exactly blanks + one integer text + blanks" above *)
+
+Lemma c12_vector_exact_tokens : forall lo hi s,
+  c12_parse_vector (c12_extract_int true lo hi) s = c12_all_some (c12_spec_int lo hi) (c12_spec_tokens_ws s).
+Proof. intros lo hi s. rewrite <- c12_split_tokens. exact (c12_vector_exact lo hi s). Qed.
